@@ -1858,7 +1858,7 @@ def _e_neg_inside(comp, order):
     return e
 
 
-for _c, _cn, _need in ((1, 'pins', ()), (2, 'duct', ('pw_duct',)),
+for _c, _cn, _need in ((1, 'pins', ('pw_pins',)), (2, 'duct', ('pw_duct',)),
                        (3, 'coolant', ('pw_cool',))):
     for _o in (1, 3):
         _csv_mut('negative_inside_cell_nonneg_coefficients:%s_order%d'
@@ -1926,6 +1926,8 @@ def _needs_ok(P, T, needs):
     comps = spec.get('comps', [1, 2, 3])
     for n in needs:
         if n == 'nolf' and t.get('use_low_fidelity_model'):
+            return False
+        if n == 'pw_pins' and 1 not in comps:
             return False
         if n == 'pw_duct' and 2 not in comps:
             return False
